@@ -82,11 +82,10 @@ void harness(void) {
 #elif defined(UNCOMPACT)
     // two arbitrary words, target resolution at most one level finer than either
     uint64_t w[2]; w[0] = in_w[0] = vp_u64_i("in_w", 0); w[1] = in_w[1] = vp_u64_i("in_w", 1); int r = in_i1 = vp_int("in_i1");
-    int64_t cap = in_l1 = vp_i64("in_l1");
+    int64_t cap = in_l1 = CAPV;   // capacity is a job parameter (constant allocation size)
     VP_EXCLUDE();
     int64_t sz = -1; H3Error e = H3_EXPORT(uncompactCellsSize)(w, 2, r, &sz);
     __CPROVER_assert(CODE(e), "uncompactCellsSize code");
-    __CPROVER_assume(cap >= 0 && cap <= 14);
     if (e == E_SUCCESS && sz <= 14) {
         H3Index *b = xmalloc(cap * sizeof(H3Index));
         H3Error e2 = H3_EXPORT(uncompactCells)(w, 2, b, cap, r);
@@ -105,13 +104,24 @@ void harness(void) {
     VP_WITNESS("compact");
 #elif defined(DISK)
     // k in {<0, 0, 1}: buffers of exactly maxGridDiskSize(k)
+    // KK is a job parameter (symbolic allocation sizes force CBMC into its unbounded-array encoding):
+    // KK=-1: any negative k (1-slot buffers), KK=0, KK=1 (7 slots = maxGridDiskSize(1))
     uint64_t h = in_h = word_at_res("in_h"); int k = in_k = vp_int("in_k");
-    __CPROVER_assume(k <= 1);
+#if KK < 0
+    __CPROVER_assume(k == -1 || k == -2147483647 - 1);
+    enum { n = 1 };
+#elif KK == 0
+    __CPROVER_assume(k == 0);
+    enum { n = 1 };
+#else
+    __CPROVER_assume(k == 1);
+    enum { n = 7 };
+#endif
     VP_EXCLUDE();
-    int64_t n = 1; H3Error es = H3_EXPORT(maxGridDiskSize)(k, &n);
-    if (k < 0) n = 1;
+    int64_t nn = 0; H3Error es = H3_EXPORT(maxGridDiskSize)(k, &nn);
+    __CPROVER_assert(k < 0 ? es == E_DOMAIN : (es == E_SUCCESS && nn == n), "buffer size is the documented maxGridDiskSize(k)");
     H3Index *o = xmalloc(n * sizeof(H3Index)); int *dd = xmalloc(n * sizeof(int));
-    for (int i = 0; i < 7; i++) if (i < n) { o[i] = 0; dd[i] = 0; }
+    for (int i = 0; i < n; i++) { o[i] = 0; dd[i] = 0; }
     H3Error e;
 #if FN == 0
     e = H3_EXPORT(gridDisk)(h, k, o);
@@ -154,7 +164,7 @@ void harness(void) {
     VP_WITNESS("pair");
 #elif defined(IJ2CELL)
     uint64_t a = in_h = word_at_res("in_h"); CoordIJ ij; ij.i = in_i1 = vp_int("in_i1"); ij.j = in_i2 = vp_int("in_i2");
-    uint32_t mode = in_u = (uint32_t)vp_u64("in_u");
+    uint32_t mode = in_u = (uint32_t)(vp_u64("in_u") & 0xffffffffu);
     VP_EXCLUDE();
     H3Index out = 0; H3Error e = H3_EXPORT(localIjToCell)(a, &ij, mode, &out);
     __CPROVER_assert(CODE(e), "localIjToCell: documented code");
